@@ -3,14 +3,38 @@ C09 — Filesystem faults are contained, surfaced, and fatal only on request.
 Fault plans are arbitrary predicates on operation sites (stat of a walk root / requested path, open of a
 directory, the k-th directory read, open of a file or `.gitignore`, stat of an opened file, the lazy
 size stat): every theorem quantifies over ALL plans, i.e. any number of simultaneous faults.
+
+CONFIGURATION CLASSES (classes of configurations, not narrowing hypotheses on the input):
+  * `Benign c` (no inode limit, no cancellation, `ErrorOnFSErrors` off, no panicking extractor): EXACT theorems
+    `C09_nonfatal`, `C09_contained_run`, `C09_gitignore_unreadable_run`, `C09_surfaced`.
+  * `FatalCfg c` (`ErrorOnFSErrors` on; no inode limit, no cancellation, no panicking extractor): EXACT theorems
+    `C09_fatal` / `C09_fatal_declarative` (fails iff a traversal fault is met) and `C09_fatal_clean` (no traversal
+    fault ⇒ the benign scan: success, attempts, inventory, statuses).
+  * EVERY configuration (limits, cancellation, panicking extractors, all combinations): `C09_no_panic`,
+    `C09_fatal_step`, and `C09_eofs_only_by_failing` (the flag acts only by making the scan fail) — the latter
+    reduces limit+fatal and cancellation+fatal configurations that do not fail to their non-fatal twins, which
+    C10's `run_trace` describes exactly when no extractor panics.  Configurations with a panicking extractor have
+    only `C09_no_panic`-style statements (and C02's).
+Narrowing hypotheses (`NoGiFaults`, `paths = []`) are named in the docstrings.
 -/
 import Scalibr.Proofs.WalkTop
 import Scalibr.Proofs.WalkMore
 import Scalibr.Proofs.WalkFatal
+import Scalibr.Proofs.WalkEofs
+import Scalibr.Proofs.WalkContain
+import Scalibr.Proofs.WalkAnchor
 namespace Scalibr.Walk
 
-/-- The engine never panics: whatever the trees, fault plans, limits, options and cancellation point,
-a scan panics only if an extractor's `Extract` does. (False before fix 7a773e8c with `UseGitignore`.) -/
+/-- No ENGINE panic: whatever the trees, fault plans, limits, options and cancellation point, a scan ends
+with the panic outcome only if an extractor's `Extract` does.
+Scope (what "panic" can mean in the model): model A has exactly ONE engine-side panic site — the deferred
+`postHandleFile` slicing an empty `wc.gitignores` (`popOnExit`, Model/Walk.lean), which is the crash that
+existed before fix 7a773e8c with `UseGitignore` and an early return (inode limit, cancelled context, unreadable
+`.gitignore`) — plus the extractor's own panic, which the engine does not recover.  The theorem says the stack
+discipline makes that one site unreachable (`walkNode_stack`: every directory pops exactly what it pushed).
+Everything else in the engine (nil maps, index arithmetic, the status ticker) has no panic outcome in the model:
+for those the statement is vacuous and only the differential stream (every case runs the real engine under
+`recover`) speaks. -/
 theorem C09_no_panic (c : Cfg) (hx : NoExtractorPanic c) (roots : List (Node × Faults)) :
     (run c roots).err ≠ .panic :=
   run_nopanic c hx roots
@@ -33,6 +57,37 @@ theorem C09_contained (c : Cfg) (f : Faults) (hg : NoGiFaults f) (above : List G
         else (mustOne c noFaults above r).map fun cl => { cl with opened := readable f r } := by
   unfold mustFrom
   exact flatMap_congr' (fun r _ => mustOne_contained c f hg above r)
+
+/-- **Containment at engine level** (class `Benign`; narrowing: whole-tree scans `paths = []`, no unreadable
+`.gitignore`): composition of `C09_contained` with `C01_calls`, for any number of roots.  The attempts of the scan
+are, root by root, the attempts of the FAULT-FREE rule for every file no fault lies on the way to (`faultHits`:
+a directory above it cannot be opened, the listing of a directory above it fails at or before the entry leading to
+it, its size cannot be determined while a limit is set) — in order, with multiplicity; `opened` records whether the
+file itself could be opened and stat'ed.  Nothing for a root that cannot be stat'ed. -/
+theorem C09_contained_run (c : Cfg) (hb : Benign c) (ho : GiOK c) (hp : c.paths = []) (roots : List (Node × Faults))
+    (hg : ∀ rf ∈ roots, NoGiFaults rf.2) :
+    (run c roots).err = .none ∧ (run c roots).calls = roots.flatMap fun rf => containedRoot c rf.2 rf.1 :=
+  run_contained c hb ho hp roots hg
+
+/-- … where the fault-free instance of the right-hand side is the fault-free specification itself. -/
+theorem C09_contained_noFaults (c : Cfg) (hp : c.paths = []) (root : Node) :
+    containedRoot c noFaults root = mustRoot c noFaults root :=
+  containedRoot_noFaults c hp root
+
+/-- **Unreadable `.gitignore`** (the counterpart of `C09_contained`, ANY fault plan): a `.gitignore` that cannot be
+opened has exactly the effect of an absent one — the owed attempts are those for the tree from which the unreadable
+`.gitignore` contents have been removed (`stripGi`); nothing else is lost and nothing below that directory is
+skipped.  (When the unreadable file is itself required by an extractor, its own attempt is owed with
+`opened = false`, like any unreadable file.) -/
+theorem C09_gitignore_unreadable (c : Cfg) (f : Faults) (above : List GiEntry) (p : Path) (n : Node) :
+    mustFrom c f above p (stripGi f p n) = mustFrom c f above p n :=
+  mustFrom_stripGi c f above p n
+
+/-- … at engine level (class `Benign`; narrowing: `paths = []`; any number of roots): scanning the trees as they are
+makes exactly the attempts of scanning the trees with the unreadable `.gitignore` contents removed. -/
+theorem C09_gitignore_unreadable_run (c : Cfg) (hb : Benign c) (ho : GiOK c) (hp : c.paths = []) (roots : List (Node × Faults)) :
+    (run c roots).calls = (run c (roots.map fun rf => (stripGi rf.2 [] rf.1, rf.2))).calls :=
+  run_stripGi c hb ho hp roots
 
 /-- Surfacing: in a benign scan the status of extractor `e` for a root is `failed` or `partial` exactly
 when one of its attempts there could not open / stat its file or its `Extract` returned an error, and it
@@ -95,6 +150,44 @@ theorem C09_fatal (c : Cfg) (hb : FatalCfg c) (ho : GiOK c) (roots : List (Node 
     (run c roots).err = (if traversalFaultScan c roots then .fs else .none) :=
   run_fatal c hb ho roots
 
+/-- **`traversalFaultScan` anchored declaratively** (no hypothesis): the structural definition used in `C09_fatal`
+equals `toldFaultScan` (Spec/WalkNodes.lean), which is written over ONE enumeration of every node of the tree with
+the chain of directories above it (`allNodes`, the analogue of `allFiles`): some root has
+  * a start path (the root, or a requested path) that cannot be stat'ed or does not exist, or
+  * (gitignore handling on) an unreadable `.gitignore` in a directory above a requested directory, or
+  * a node the walk GETS TO (`visitedRec`: every directory above it is not excluded, can be opened, and its
+    listing did not fail at or before the entry leading on) at which `handleFile` is told about a failure
+    (`toldFault`): a directory that is entered and whose `.gitignore` is unreadable (gitignore on), which cannot be
+    opened, or one of whose reads `0 … #entries` fails; or an eligible, not ignored file that some extractor
+    requires and whose size stat fails while a size limit is set. -/
+theorem C09_fatal_anchor (c : Cfg) (roots : List (Node × Faults)) :
+    traversalFaultScan c roots = toldFaultScan c roots :=
+  traversalFaultScan_anchor c roots
+
+/-- `C09_fatal` with the declarative right-hand side. -/
+theorem C09_fatal_declarative (c : Cfg) (hb : FatalCfg c) (ho : GiOK c) (roots : List (Node × Faults)) :
+    (run c roots).err = (if toldFaultScan c roots then .fs else .none) := by
+  rw [← C09_fatal_anchor]; exact run_fatal c hb ho roots
+
+/-- **Fatal errors, no traversal fault** (class `FatalCfg`): the scan is the benign scan — it succeeds, and its
+attempts, inventory and statuses are the benign specification's (so `C09_contained`, `C09_surfaced`,
+`C09_status_meaning` describe it: faults that are not traversal faults — a file that cannot be opened or stat'ed
+for extraction — are charged to the extractor's status, never fatal). -/
+theorem C09_fatal_clean (c : Cfg) (hb : FatalCfg c) (ho : GiOK c) (roots : List (Node × Faults))
+    (hnf : traversalFaultScan c roots = false) :
+    (run c roots).err = .none ∧ (run c roots).calls = mustExtract c roots ∧
+    (run c roots).pkgs = pkgsOfCalls c (mustExtract c roots) ∧
+    (run c roots).statuses = roots.flatMap fun (r, f) => (List.range c.nExt).map fun e => (e, statusSpec c f r e) :=
+  run_fatal_clean c hb ho roots hnf
+
+/-- **`ErrorOnFSErrors` acts only by failing** (EVERY configuration — limits, cancellation, panicking extractors —
+every forest and fault plan): a scan with the flag set either ends with the filesystem error (or an extractor's
+panic), or it is IDENTICAL in every observable — error, inventory, statuses, attempts, visited inodes — to the
+scan with the flag cleared.  "Fatal only on request", read from the other side. -/
+theorem C09_eofs_only_by_failing (c : Cfg) (he : c.errorOnFSErrors = true) (roots : List (Node × Faults)) :
+    (run c roots).err = .fs ∨ (run c roots).err = .panic ∨ run (nonFatal c) roots = run c roots :=
+  run_eofs c he roots
+
 /-- … and step-wise: every failure `handleFile` is told about is returned when errors are fatal (unless the
 inode limit or a cancelled context pre-empts it with their own error). -/
 theorem C09_fatal_step (c : Cfg) (he : c.errorOnFSErrors = true) (s : St) :
@@ -121,5 +214,21 @@ example : NoGiFaults { openFail := fun p => p = ["a"] } := by
   simp [this]
 example : faultHits { nExt := 1, required := fun _ _ => true, extract := fun _ _ => {}, giMatch := fun _ _ _ _ => false }
     { openFail := fun p => p = ["a"] } ⟨["a", "x"], .reg, 1, [⟨[], none, 0⟩, ⟨["a"], none, 0⟩]⟩ = true := by decide
+
+/-! more non-vacuity: the `false` side of `C09_fatal` (a file that cannot be opened for extraction is NOT a traversal
+fault: `C09_fatal_clean` applies), the declarative predicate on the same inputs, and `stripGi` on a tree whose
+`.gitignore` is unreadable -/
+def exF : Cfg := { nExt := 1, required := fun _ _ => true, extract := fun _ _ => {}, errorOnFSErrors := true, useGitignore := true,
+                   giMatch := matcherMatch }
+def exFTree : Node := .dir none [("a", .dir (some [⟨"x", false, false⟩]) [("x", .file .reg 1), ("y", .file .reg 1)])]
+example : FatalCfg exF ∧ GiOK exF := ⟨⟨rfl, rfl, rfl, rfl, fun _ _ => rfl⟩, matcherMatch_domain⟩
+example : traversalFaultScan exF [(exFTree, { openFail := fun p => p = ["a", "y"] })] = false ∧
+    toldFaultScan exF [(exFTree, { openFail := fun p => p = ["a", "y"] })] = false := by decide
+example : toldFaultScan exF [(exFTree, { openFail := fun p => p = ["a", ".gitignore"] })] = true ∧
+    toldFaultScan exF [(exFTree, { readEntryFail := fun p k => p = ["a"] ∧ k = 2 })] = true := by decide
+/-- with the `.gitignore` of `a` unreadable (errors not fatal), `a/x` — ignored otherwise — is owed, as in the tree without it -/
+example : (mustFrom { exF with errorOnFSErrors := false } {} [] [] exFTree).map (·.path) = [["a", "y"]] ∧
+    (mustFrom { exF with errorOnFSErrors := false } { openFail := fun p => p = ["a", ".gitignore"] } [] [] exFTree).map (·.path)
+      = [["a", "x"], ["a", "y"]] := by decide
 
 end Scalibr.Walk
